@@ -12,12 +12,36 @@ The device is driven only through write()/read()/start()/stop(); the chooser dec
  history of ops is a deterministic sequential history — the one the Lean model (`Dummy.lean`) executes.
 (This module is also the library of props/C16.py.)
 
-Generator kinds of a custom channel (`chan = type.vdim.mlen.gen.en.div.namehex`): 0..9 = dummy.py's ChannelFunc<k>;
+Line syntax (shared with lean/NxsModel/Driver/Dummy.lean): `dummy run <defs> <ops>`; a definition is
+`D,flags,pad,snum` (default channel set) | `C,flags,pad,snum,chan:chan…` | `A,flags,pad,snum,k` (the list object of
+instance k); pad = `rxp` | `rxp/wpad` | `rxp/wpad/sleep_ms` (rx padding the device reports; the interface's write padding,
+default = rxp as a client sets it; `stream_sleep`); `chan = type.vdim.mlen.gen.en.div.namehex[.id]` (id = the `chan` argument
+of `DeviceChannel`, default: the position).  Op `<k>n` CONSTRUCTS instance k at that point of the history (an instance
+with an `n` op is not constructed up-front): a device created after others were driven.
+
+Generator kinds of a custom channel: 0..9 = dummy.py's ChannelFunc<k>;
 10 = a user-defined vector function (ChannelFunc1's counter in every component); 11 = a user-defined function of the
 CALL INDEX that `DeviceChannel.data_get` hands to `IDeviceChannelFunc.get(cntr)` (`get(cntr) -> (cntr,) * vdim`);
 12 = its sparse variant (`None` unless `cntr % 3 == 0`); n = no function.  Kinds 11 / 12 make `DeviceChannel._cntr`
 observable: it must advance on every call (also when the function returned None) and restart with the generators
 (finding F19).  The state dump `d` also shows the call counters (compared with the model, not judged by the oracle).
+
+THE ORACLE (class `Judge`) knows the NxScope protocol (harness/refdev.py, harness/ref.py) and NOTHING of dummy.py's
+content (review findings FA1 / FA2: a hard-coded copy of the default channel table and of the generators' constants made
+harmless edits of dummy.py — a renamed default channel, another period of the triangle wave — look like violations):
+ * the device's DEFINITION (channel count, flags, rx padding, per channel enable / type / dimension / divider / metadata
+   size / name / generator class) is what `snapshot` reads from the constructed device object BEFORE its history starts
+   (default devices) or what the harness itself handed to the constructor (custom devices);
+ * the expected sample sequence of a channel is what a FRESH object of its generator class yields — `cls()` created in a
+   fresh interpreter (`Fresh`: the library freshly imported, nothing shared with the devices under test, so generators that
+   keep state in class attributes cannot contaminate the reference), output j for the j-th sampling since the last start;
+   a class is compared by VALUE iff two fresh objects give the same sequence under two different `random` seeds, else by
+   structure; the harness-defined kinds 10 / 11 / 12 are known here;
+ * a value that does not fit its channel's declared type / dimension / metadata size (`value_fits`) makes the device's
+   encoder raise: modelled, not judged (the instance is `tainted`).
+So the oracle judges "each channel's samples in generator order without loss or repetition, reset at start" and "the
+answers describe the device that was defined", whatever the defaults and the generators' constants are.  Only the device's
+definition and the generator classes are read from nxslib; encoders, callbacks, queues are not.
 
 What the quantifier of the property covers here, and what it does not (exclusions accepted by the owner):
  * "padding, noise, CRC-damaged requests" are writes the NxScope receiver does not accept (no start byte, bad header,
@@ -37,9 +61,32 @@ What the quantifier of the property covers here, and what it does not (exclusion
    rest of the queued writes and of the unread frames (stale responses / stream frames) survive into the next
    `start()`, as do enable flags, dividers and the stream-started flag; `start()` resets generators and call counters.
  * a stream batch larger than one frame payload ends the stream thread (known finding F17, key `batch-too-large`).
+ * SCHEDULES are outside the quantifier (review finding G2): thread iterations are atomic here and in the model.  With real
+   threads a stream frame can be sampled and queued AFTER a stop request was acknowledged: `_thread_stream` tests
+   `_stream_started.wait()` and only then takes `_dummydev_lock`; `_start_cb` clears the event outside the lock and queues
+   the ACK under it.  Schedule: the stream thread passes `wait()` and is descheduled before the lock; the client's stop
+   request is handled and acknowledged; the stream thread continues and queues a whole batch after the ACK.  (Reviewer's
+   script race14.py forces this legal OS schedule on the unmodified DummyDev.)  `stream_only_when_started` is a theorem
+   about the ATOMIC model: "no frame from an iteration that BEGINS while not started".  Likewise the race between stop()
+   and a batch being built, and with `stream_sleep > 0` how many queued requests the receive thread takes while the
+   stream thread sleeps inside `stop()` (here: none — the sleeping thread is waited for, nobody overtakes it).
+ * a channel name that is a `str` with a lone surrogate (e.g. "\\udc80"; review finding M2) makes `bytes(name, "utf-8")` raise
+   inside the device's receive thread on a channel-info request, which ends that thread.  The model's name is a byte list
+   (`DevOk` cannot say "name encodable") and the line syntax carries names as UTF-8 bytes, so no model input exists for it:
+   names here are valid, NUL-free UTF-8 (with leading / trailing / inner white space, tabs, multi-byte characters).
+ * structural blind spots of the correspondence named by the review, and what is varied now: channel ids that are not the
+   positions (a quarter of the custom devices; the model has no id: the device addresses by position), write padding
+   different from the rx padding (30 %), `stream_sleep` 1 ms / 0.5 s / 3 s of virtual time (15 %), names from a list of 25
+   plus random names over an alphabet with white space and multi-byte characters, instances constructed late (`n`).
 """
+import json
+import os
+import re
 import struct
+import subprocess
+import sys
 
+import common
 from common import Prop, exc_name, hexs
 import vsim
 import refdev
@@ -47,54 +94,84 @@ import streamglue as sg
 from ref import ref_frame, ref_crc16_xmodem
 
 BOUNDARY = ("get", "event-wait", "join", "ctl")
-DET_GENS = (1, 2, 5, 6, 7, 8, 10, 11, 12)
 IDX_GENS = (11, 12)            # user-defined functions of the call index (see module docstring)
-IDX_MAX = 1 << 24              # call indices stay below this in every history (exact in float32)
-RND_GENS = (0, 3, 4, 9)
-# in oracle runs the sine generator (9) is judged by value against math.sin (it is deterministic and must restart
-# with the others); in correspondence runs it stays masked because the Lean model does not compute sines
+HARNESS_GENS = (10, 11, 12)    # generator kinds defined by the harness (their sequences are known here)
+RND_GENS = (0, 3, 4, 9)        # correspondence runs: values the Lean model does not compute (random, sine) are zeroed
+# oracle runs: nothing is masked in the transcript; the judge decides per generator CLASS whether its values are
+# compared (two fresh objects of the class give the same sequence under different `random` seeds) or only their structure
 ORACLE_MODE = [False]
-DEFAULT_TABLE = [(10, 1, 0, "chan0", 0), (10, 1, 0, "chan1", 1), (10, 1, 0, "chan2", 2), (10, 2, 0, "chan3", 3),
-                 (10, 3, 0, "chan4", 4), (10, 3, 0, "chan5", 5), (18, 64, 0, "chan6", 6), (3, 3, 1, "chan7", 7),
-                 (1, 0, 16, "chan8", 8), (10, 3, 0, "chan9", 9), (0, 0, 0, "", None)]
+
+
+def default_table():
+    """the default channel set as the library defines it NOW: [(type, vdim, mlen, name, generator number)], read from the
+    module-level definition (`DUMMY_DEV_CHANNELS`) — used to generate requests for a default device (number of channels)
+    and to zero unmodelled values in correspondence runs; the ORACLE never uses it (it reads the definition from the
+    device object it judges, see `snapshot`)"""
+    from nxslib.intf import dummy as dm
+    out = []
+    for ch in dm.DUMMY_DEV_CHANNELS:
+        fn = getattr(ch, "_func", None)
+        m = re.fullmatch(r"ChannelFunc(\d+)", type(fn).__name__) if fn is not None else None
+        g = None if fn is None else (int(m.group(1)) if m else 0)      # unknown class: treated like a random generator
+        out.append((ch.data._type, ch.data.vdim, ch.data.mlen, ch.data.name, g))
+    return out
 
 
 # ---------------------------------------------------------------------------------------------------------
 # device definitions (line syntax shared with lean/NxsModel/Driver/Dummy.lean)
 # ---------------------------------------------------------------------------------------------------------
+def parse_pad(x):
+    """`rxp` | `rxp/wpad` | `rxp/wpad/sleep_ms` -> (rxp, wpad, sleep_ms)"""
+    t = [int(v) for v in x.split("/")]
+    return t[0], (t[1] if len(t) > 1 else t[0]), (t[2] if len(t) > 2 else 0)
+
+
+def pad_str(d):
+    wp, sl = d.get("wpad", d["rxp"]), d.get("sleep", 0)
+    if sl:
+        return f"{d['rxp']}/{wp}/{sl}"
+    return f"{d['rxp']}/{wp}" if wp != d["rxp"] else str(d["rxp"])
+
+
 def parse_defs(s):
     out = []
     for d in s.split("+"):
         t = d.split(",")
-        kind, flags, rxp, snum = t[0], int(t[1]), int(t[2]), int(t[3])
+        kind, flags, snum = t[0], int(t[1]), int(t[3])
+        rxp, wpad, sleep = parse_pad(t[2])
+        base = dict(kind=kind, flags=flags, rxp=rxp, wpad=wpad, sleep=sleep, snum=snum)
         if kind == "D":
-            out.append(dict(kind="D", flags=flags, rxp=rxp, snum=snum,
-                            chans=[dict(type=a, vdim=b, mlen=c, gen=g, en=0, div=0, name=n.encode()) for a, b, c, n, g in DEFAULT_TABLE]))
+            out.append(dict(base, chans=[dict(type=a, vdim=b, mlen=c, gen=g, en=0, div=0, name=n.encode()) for a, b, c, n, g in default_table()]))
         elif kind == "C":
             chans = []
             for c in t[4].split(":"):
-                ty, vdim, mlen, gen, en, div, name = c.split(".")
-                chans.append(dict(type=int(ty), vdim=int(vdim), mlen=int(mlen), gen=None if gen == "n" else int(gen),
-                                  en=int(en), div=int(div), name=b"" if name == "-" else bytes.fromhex(name)))
-            out.append(dict(kind="C", flags=flags, rxp=rxp, snum=snum, chans=chans))
+                f = c.split(".")
+                ty, vdim, mlen, gen, en, div, name = f[:7]
+                ch = dict(type=int(ty), vdim=int(vdim), mlen=int(mlen), gen=None if gen == "n" else int(gen),
+                          en=int(en), div=int(div), name=b"" if name == "-" else bytes.fromhex(name))
+                if len(f) > 7:
+                    ch["id"] = int(f[7])      # the `chan` argument of DeviceChannel(...) (default: the position)
+                chans.append(ch)
+            out.append(dict(base, chans=chans))
         elif kind == "A":
             k = int(t[4])
-            out.append(dict(kind="A", flags=flags, rxp=rxp, snum=snum, alias=k, chans=out[k]["chans"]))
+            out.append(dict(base, alias=k, chans=out[k]["chans"]))
         else:
             raise ValueError(d)
     return out
 
 
 def chan_str(c):
-    return f"{c['type']}.{c['vdim']}.{c['mlen']}.{'n' if c['gen'] is None else c['gen']}.{c['en']}.{c['div']}.{hexs(c['name'])}"
+    s = f"{c['type']}.{c['vdim']}.{c['mlen']}.{'n' if c['gen'] is None else c['gen']}.{c['en']}.{c['div']}.{hexs(c['name'])}"
+    return s + (f".{c['id']}" if c.get("id") is not None else "")
 
 
 def def_str(d):
     if d["kind"] == "D":
-        return f"D,{d['flags']},{d['rxp']},{d['snum']}"
+        return f"D,{d['flags']},{pad_str(d)},{d['snum']}"
     if d["kind"] == "A":
-        return f"A,{d['flags']},{d['rxp']},{d['snum']},{d['alias']}"
-    return f"C,{d['flags']},{d['rxp']},{d['snum']}," + ":".join(chan_str(c) for c in d["chans"])
+        return f"A,{d['flags']},{pad_str(d)},{d['snum']},{d['alias']}"
+    return f"C,{d['flags']},{pad_str(d)},{d['snum']}," + ":".join(chan_str(c) for c in d["chans"])
 
 
 # ---------------------------------------------------------------------------------------------------------
@@ -154,6 +231,10 @@ def make_chooser(ctl):
         for t in ctl.want:
             if t in cands and (not ctl.fresh_only or t.state == "ready"):
                 return cands.index(t)
+            if t.state == "blocked" and t.what == "sleep" and ctl.idle in cands:
+                # the wanted thread sleeps inside its iteration (`stream_sleep`): the clock advances, nobody else runs
+                # (a thread further down the list must not overtake it: iterations stay atomic)
+                return cands.index(ctl.idle)
         for i, t in enumerate(cands):
             if t is not ctl.idle and timed_out(sim, t):
                 return i
@@ -208,6 +289,132 @@ def make_func(dm, c):
     return getattr(dm, f"ChannelFunc{g}")()
 
 
+def snapshot(dev):
+    """the DEFINITION of a constructed DummyDev, read from its device object (no protocol code involved): what the
+    oracle's reference device is built from"""
+    dd = dev._dummydev
+    chans = []
+    for ch in dd._channels:
+        fn = getattr(ch, "_func", None)
+        chans.append(dict(en=bool(ch.data.en), type=int(ch.data._type), vdim=int(ch.data.vdim), div=int(ch.data.div),
+                          mlen=int(ch.data.mlen), name=ch.data.name,
+                          func=None if fn is None else [type(fn).__module__, type(fn).__qualname__]))
+    return dict(chmax=int(dd.data.chmax), flags=int(dd.data.flags), rxp=int(dd.data.rxpadding), chans=chans)
+
+
+# ---------------------------------------------------------------------------------------------------------
+# what a FRESH generator object yields / what a FRESH default device is (asked of a fresh interpreter)
+# ---------------------------------------------------------------------------------------------------------
+_FRESH_CODE = r"""
+import sys, json, random, importlib, logging
+sys.path.insert(0, sys.argv[1])
+logging.disable(logging.CRITICAL)
+req = json.loads(sys.stdin.read())
+def one(x):
+    if isinstance(x, bool): return {"o": "bool"}
+    if isinstance(x, int): return x
+    if isinstance(x, float): return {"f": x.hex()}
+    if isinstance(x, str): return {"s": x}
+    return {"o": type(x).__name__}
+def enc(r):
+    if r is None: return None
+    return [[one(x) for x in r.data], [one(x) for x in r.meta]]
+out = {"gens": {}, "default": None}
+for mod, qn, n in req["gens"]:
+    key = mod + ":" + qn
+    try:
+        cls = importlib.import_module(mod)
+        for part in qn.split("."):
+            cls = getattr(cls, part)
+        seqs = []
+        for seed in (1, 2):
+            random.seed(seed)
+            g = cls()
+            seqs.append([enc(g.get(j)) for j in range(n)])
+        out["gens"][key] = {"det": seqs[0] == seqs[1], "out": seqs[0], "err": None}
+    except Exception as e:
+        out["gens"][key] = {"det": False, "out": [], "err": type(e).__name__ + ": " + str(e)}
+if req.get("default"):
+    from nxslib.intf import dummy as dm
+    dev = dm.DummyDev()
+    dd = dev._dummydev
+    chans = []
+    for ch in dd._channels:
+        fn = getattr(ch, "_func", None)
+        chans.append(dict(en=bool(ch.data.en), type=int(ch.data._type), vdim=int(ch.data.vdim), div=int(ch.data.div),
+                          mlen=int(ch.data.mlen), name=ch.data.name,
+                          func=None if fn is None else [type(fn).__module__, type(fn).__qualname__]))
+    out["default"] = dict(chmax=int(dd.data.chmax), chans=chans)
+    dev.stop = lambda: None
+sys.stdout.write(json.dumps(out))
+"""
+
+
+class Fresh:
+    """sequences of FRESH generator objects (`cls()` in a fresh interpreter: module freshly imported, nothing shared with
+    the devices under test) and the description of a FRESH default device.  Cached for the life of the process."""
+    gens = {}          # "module:qualname" -> {det, out: [decoded outputs], err}
+    default = None
+    spawns = 0
+
+    @classmethod
+    def _ask(cls, gens, default=False):
+        req = json.dumps({"gens": gens, "default": default})
+        p = subprocess.run([sys.executable, "-c", _FRESH_CODE, os.path.join(common.REPO, "src")], input=req,
+                           capture_output=True, text=True, timeout=600)
+        cls.spawns += 1
+        if p.returncode != 0:
+            raise RuntimeError("fresh-interpreter helper failed: " + p.stderr[-400:])
+        r = json.loads(p.stdout)
+        for key, g in r["gens"].items():
+            g["out"] = [cls._dec(o) for o in g["out"]]
+            cls.gens[key] = g
+        if r.get("default") is not None:
+            cls.default = r["default"]
+
+    @staticmethod
+    def _dec(o):
+        if o is None:
+            return None
+
+        def one(x):
+            if isinstance(x, dict):
+                if "f" in x:
+                    return float.fromhex(x["f"])
+                if "s" in x:
+                    return x["s"]
+                return NotImplemented          # a value of a type the protocol has no encoding for
+            return x
+        return [one(x) for x in o[0]], [one(x) for x in o[1]]
+
+    @classmethod
+    def need(cls, keys, n=4096):
+        """make sure the first n outputs of every class in keys ([module, qualname]) are known"""
+        miss = [[m, q, max(n, 4096)] for m, q in keys if len(cls.gens.get(m + ":" + q, {"out": []})["out"]) < n
+                and not cls.gens.get(m + ":" + q, {}).get("err")]
+        if miss:
+            cls._ask(miss)
+
+    @classmethod
+    def output(cls, func, j, hint=0):
+        """(output j of a fresh object of the class: None | (data, meta), deterministic?) — ("unknown", False) if the class
+        cannot be re-created; `hint`: how many outputs the caller expects to need at most"""
+        key = func[0] + ":" + func[1]
+        g = cls.gens.get(key)
+        if g is None or (len(g["out"]) <= j and not g["err"]):
+            cls._ask([[func[0], func[1], max(4096, hint, j + 1 + (j + 1) // 2)]])
+            g = cls.gens[key]
+        if g["err"] or len(g["out"]) <= j:
+            return "unknown", False
+        return g["out"][j], g["det"]
+
+    @classmethod
+    def default_device(cls):
+        if cls.default is None:
+            cls._ask([], default=True)
+        return cls.default
+
+
 def run_history(defs, ops, max_idle=200000):
     """returns (tokens, info).  tokens: one per op, in the format of the Lean driver."""
     ctl = Ctl()
@@ -232,11 +439,16 @@ def run_history(defs, ops, max_idle=200000):
                 sim.yield_("idle")
         ctl.idle = sim.spawn(idle, "idle")
         # the task names must be unique for the scheduling counters
-        devs, lists = [], []
-        for k, d in enumerate(defs):
+        # instances with an `n` op are constructed at that op (after other instances were driven), the others up-front
+        late = {int(o[0]) for o in ops if o[1] == "n"}
+        devs, lists = [None] * len(defs), [None] * len(defs)
+        info["snap"] = [None] * len(defs)
+
+        def construct(k):
+            d = defs[k]
+            sleep = d.get("sleep", 0) / 1000.0
             if d["kind"] == "D":
-                dev = dm.DummyDev(flags=d["flags"], rxpadding=d["rxp"], stream_sleep=0.0, stream_snum=d["snum"])
-                lists.append(None)
+                dev = dm.DummyDev(flags=d["flags"], rxpadding=d["rxp"], stream_sleep=sleep, stream_snum=d["snum"])
             else:
                 if d["kind"] == "A":
                     chans = lists[d["alias"]]
@@ -244,16 +456,19 @@ def run_history(defs, ops, max_idle=200000):
                     chans = []
                     for i, c in enumerate(d["chans"]):
                         fn = make_func(dm, c)
-                        chans.append(DeviceChannel(i, c["type"], c["vdim"], c["name"].decode("utf-8"), en=bool(c["en"]),
+                        cid = i if c.get("id") is None else c["id"]
+                        chans.append(DeviceChannel(cid, c["type"], c["vdim"], c["name"].decode("utf-8"), en=bool(c["en"]),
                                                    div=c["div"], mlen=c["mlen"], func=fn))
-                lists.append(chans)
-                if chans is None:
-                    dev = dm.DummyDev(flags=d["flags"], rxpadding=d["rxp"], stream_sleep=0.0, stream_snum=d["snum"])
-                else:
-                    dev = dm.DummyDev(chmax=len(chans), flags=d["flags"], channels=chans, rxpadding=d["rxp"],
-                                      stream_sleep=0.0, stream_snum=d["snum"])
-            dev.write_padding = d["rxp"]
-            devs.append({"dev": dev, "recv": None, "stream": None})
+                lists[k] = chans
+                dev = dm.DummyDev(chmax=len(chans), flags=d["flags"], channels=chans, rxpadding=d["rxp"],
+                                  stream_sleep=sleep, stream_snum=d["snum"])
+            dev.write_padding = d.get("wpad", d["rxp"])
+            devs[k] = {"dev": dev, "recv": None, "stream": None}
+            info["snap"][k] = snapshot(dev)       # the device's DEFINITION, before its history starts (for the oracle)
+
+        for k in range(len(defs)):
+            if k not in late:
+                construct(k)
         nerr = [0]
 
         def new_errors():
@@ -286,20 +501,29 @@ def run_history(defs, ops, max_idle=200000):
 
         out = []
         try:
-            run_ops(out, devs, thread_step, new_errors, wait, live, settle)
+            run_ops(out, devs, thread_step, new_errors, wait, live, settle, construct)
         finally:
             for D in devs:
-                D["dev"].stop = lambda: None      # late `__del__` must not touch the shims after the simulation
-        info["alive"] = [[live(D["recv"]), live(D["stream"])] for D in devs]
+                if D is not None:
+                    D["dev"].stop = lambda: None      # late `__del__` must not touch the shims after the simulation
+        info["alive"] = [[live(D["recv"]), live(D["stream"])] if D is not None else [False, False] for D in devs]
         info["now"] = sim.now
         return out
 
-    def run_ops(out, devs, thread_step, new_errors, wait, live, settle):
+    def run_ops(out, devs, thread_step, new_errors, wait, live, settle, construct):
         for op in ops:
             k, code, arg = int(op[0]), op[1], op[2:]
-            D = devs[k]
-            dev = D["dev"]
             settle()
+            if code == "n":
+                if devs[k] is not None:
+                    raise ValueError(f"instance {k} constructed twice")
+                construct(k)
+                out.append(".")
+                continue
+            D = devs[k]
+            if D is None:
+                raise ValueError(f"op {op[:12]} on an instance that was not constructed")
+            dev = D["dev"]
             if code == "w":
                 dev.write(b"" if arg == "-" else bytes.fromhex(arg))
                 out.append(".")
@@ -387,16 +611,18 @@ def split_stream(payload, chans):
     return out
 
 
-def mask_stream(payload, chans):
-    """zero the value bytes of channels whose generator is random / sine (compared by structure only)"""
+def mask_stream(payload, chans, masked=None):
+    """zero the value bytes of the channels for which `masked(channel)` holds (compared by structure only); default: the
+    channels whose generator the Lean model does not compute (random / sine)"""
+    if masked is None:
+        masked = lambda c: c["gen"] in RND_GENS      # noqa: E731
     ss = split_stream(payload, chans)
     if ss is None:
         return payload
     out = bytearray(payload[:1])
     for cid, data, meta in ss:
         out.append(cid)
-        masked = chans[cid]["gen"] in RND_GENS and not (ORACLE_MODE[0] and chans[cid]["gen"] == 9)
-        out += bytes(len(data)) if masked else data
+        out += bytes(len(data)) if masked(chans[cid]) else data
         out += meta
     return bytes(out)
 
@@ -405,6 +631,8 @@ def frame_token(fr, d):
     if not fr:
         return "-"
     if len(fr) >= 6 and fr[3] == 1:
+        if ORACLE_MODE[0]:
+            return "S" + fr[4:-2].hex()          # the judge decides what is compared (see Judge.check_stream)
         return "S" + mask_stream(fr[4:-2], d["chans"]).hex()
     return fr.hex()
 
@@ -432,28 +660,57 @@ ODD_COMBOS = [  # configurations whose stream step raises inside the device (mod
     (3, 3, 0, 7), (10, 1, 4, 7), (10, 1, 2, 1), (18, 4, 0, 11), (1, 0, 0, 12),
 ]
 SMALL_COMBOS = [c for c in GOOD_COMBOS if c[1] <= 3 and c[3] != 6]     # for devices with many channels
-NAMES = [b"", b"a", b"ch", "é".encode(), "ñandú".encode(), b"x" * 40, b"volt_1"]
+NAMES = [b"", b"a", b"ch", "é".encode(), "ñandú".encode(), b"x" * 40, b"volt_1",
+         # leading / trailing / inner blanks and tabs, blank-only names, other Unicode white space, non-BMP characters
+         b" x ", b"  lead", b"trail  ", b"\tt", b"t\t", b"a b", b" ", b"\t \t", " µV ".encode(), "温度".encode(), "\u00a0n\u00a0".encode(),
+         "\u2003em".encode(), "😀".encode(), b"new\nline", b"cr\r", b"\x0bvt", b"y" * 250]
+NAME_ALPHABET = [" ", " ", "\t", "a", "B", "7", "_", "-", ".", "é", "ß", "µ", "温", "\u00a0", "\u2009", "😀", "\n", "x"]
 RXPS = [0, 0, 4, 16, 3, 8, 1, 2, 5, 7, 17, 31, 64, 100, 255]
 SNUMS = [1, 2, 3, 1, 2, 3, 4, 7, 16, 50, 99]
 NCHANS = [1, 2, 3, 4, 6, 6, 11, 12, 13, 17, 40, 100, 200, 254, 255]
+SLEEPS = [1, 500, 3000]         # stream_sleep in ms (virtual time): the thread sleeps at the end of a producing iteration
+
+
+def gen_name(rng, short=False):
+    """a channel name: from the list, or random over an alphabet with white space and multi-byte characters (NUL-free UTF-8)"""
+    if rng.random() < 0.6:
+        return rng.choice(NAMES[:5] + NAMES[7:12] if short else NAMES)
+    return "".join(rng.choice(NAME_ALPHABET) for _ in range(rng.randrange(1, 6 if short else 12))).encode()
+
+
+def vary_iface(rng, d):
+    """write padding different from the rx padding the device reports (a client sets them equal; the device must not care),
+    a non-zero stream_sleep"""
+    if rng.random() < 0.3:
+        d["wpad"] = rng.choice(RXPS)
+    if rng.random() < 0.15:
+        d["sleep"] = rng.choice(SLEEPS)
+    return d
 
 
 def gen_custom(rng, odd=False, nmax=6, big=True):
-    """a custom device: 1..255 channels (mostly few), rx padding 0..255, batch sizes 1..99"""
+    """a custom device: 1..255 channels (mostly few), rx padding 0..255, batch sizes 1..99; in a quarter of the devices the
+    channel ids given to DeviceChannel(...) are not the positions (the device addresses channels by position)"""
     n = rng.choice(NCHANS) if big and rng.random() < 0.3 else rng.choice([1, 2, 3, 4, nmax])
     many = n > 12
     chans = []
     for i in range(n):
         ty, vdim, mlen, g = rng.choice(ODD_COMBOS if odd and rng.random() < 0.4 else (SMALL_COMBOS if many else GOOD_COMBOS))
         chans.append(dict(type=ty, vdim=vdim, mlen=mlen, gen=g, en=int(rng.random() < (0.05 if many else 0.25)),
-                          div=rng.choice([0, 0, 0, 7, 255]), name=rng.choice(NAMES[:5] if many else NAMES)))
+                          div=rng.choice([0, 0, 0, 7, 255]), name=gen_name(rng, short=many)))
+    if rng.random() < 0.25:
+        ids = rng.sample(range(256), n) if rng.random() < 0.5 else [(i + 1) % n for i in range(n)]
+        for c, cid in zip(chans, ids):
+            c["id"] = cid
     snum = rng.choice([1, 2, 3, 4] if many else SNUMS)
-    return dict(kind="C", flags=rng.choice([3, 3, 0, 1, 2, 0x83]), rxp=rng.choice(RXPS), snum=snum, chans=chans)
+    rxp = rng.choice(RXPS)
+    return vary_iface(rng, dict(kind="C", flags=rng.choice([3, 3, 0, 1, 2, 0x83]), rxp=rxp, wpad=rxp, sleep=0, snum=snum, chans=chans))
 
 
 def gen_default(rng):
-    return dict(kind="D", flags=rng.choice([3, 3, 3, 0, 1, 2]), rxp=rng.choice([16, 0, 8, 16, 5, 1, 33, 255]),
-                snum=rng.choice([1, 2, 3, 1, 2, 3, 4, 9, 25, 99]), chans=parse_defs("D,3,0,1")[0]["chans"])
+    rxp = rng.choice([16, 0, 8, 16, 5, 1, 33, 255])
+    return vary_iface(rng, dict(kind="D", flags=rng.choice([3, 3, 3, 0, 1, 2]), rxp=rxp, wpad=rxp, sleep=0,
+                                snum=rng.choice([1, 2, 3, 1, 2, 3, 4, 9, 25, 99]), chans=parse_defs("D,3,0,1")[0]["chans"]))
 
 
 def en_byte(rng):
@@ -649,6 +906,31 @@ def sparse_lines():
     return out
 
 
+def names_line():
+    """channel names with leading / trailing / inner white space, a blank-only name, multi-byte characters: the channel-info
+    response must carry exactly the bytes of the definition (reviewer edit U1: `.strip()` in the device-side encoder);
+    channel ids that are not the positions, write padding different from rx padding"""
+    names = [" x ", "\tt", "t\t", "a b", " ", "温度 ", "\u00a0n\u00a0", "  two  words  ", "😀 ", "plain"]
+    chans = ":".join(f"10.1.0.1.{i % 2}.0.{nm.encode().hex()}.{(i * 7 + 3) % 256}" for i, nm in enumerate(names))
+    ops = ["0a"]
+    for c in range(len(names)):
+        ops += [f"0w{req(3, [c]).hex()}", "0R", "0r"]
+    ops += [f"0w{req(2, []).hex()}", "0R", "0r", "0d"]
+    return f"dummy run C,3,8/3,2,{chans} " + ";".join(ops)
+
+
+def late_default_line():
+    """a default device constructed (`1n`) after another one has been configured and is streaming: it answers like a
+    fresh default device (nothing enabled, dividers 0, generators at their first value)"""
+    enall, div, start = req(6, [2, 0, 1]).hex(), req(7, [2, 0, 9]).hex(), req(5, [1]).hex()
+    ops = ["0a", f"0w{enall}", "0R", "0r", f"0w{div}", "0R", "0r", f"0w{start}", "0R", "0r", "0S", "0r", "0S", "0r",
+           "1n", "1d", "1a", f"1w{req(2, []).hex()}", "1R", "1r"]
+    for c in (0, 1, 7, 10):
+        ops += [f"1w{req(3, [c]).hex()}", "1R", "1r"]
+    ops += [f"1w{enall}", "1R", "1r", f"1w{start}", "1R", "1r", "1S", "1r", "0S", "0r", "1d", "0d"]
+    return "dummy run D,3,16,3+D,3,16/0,2 " + ";".join(ops)
+
+
 def line_of(defs, ops):
     return "dummy run " + "+".join(def_str(d) for d in defs) + " " + ";".join(ops)
 
@@ -673,97 +955,70 @@ def impl_line(line):
 FRAC = {12: 8, 13: 8, 14: 16, 15: 16, 16: 32, 17: 32}
 INT_RANGE = {"B": (0, 255), "b": (-128, 127), "H": (0, 65535), "h": (-32768, 32767), "I": (0, 2**32 - 1),
              "i": (-2**31, 2**31 - 1), "Q": (0, 2**64 - 1), "q": (-2**63, 2**63 - 1)}
-GEN_SHAPE = {0: ("float", 1, (0, 1), 0), 1: ("int", 1, (0, 1000), 0), 2: ("int", 1, (-1001, 1001), 0), 3: ("float", 2, (0, 1), 0),
-             4: ("float", 3, (0, 1), 0), 5: ("float", 3, (-1, 1), 0), 6: ("str", 1, None, 0), 7: ("int", 3, (-1, 1), 1),
-             8: ("none", 0, None, 16), 9: ("float", 3, (-1, 1), 0)}
 
 
-def combo_ok(c):
-    """can a conforming device stream this channel: the generator's values fit the declared type / dimension / metadata"""
-    g = c["gen"]
-    if g is None:
-        return True
+def is_num(x):
+    return isinstance(x, (int, float)) and not isinstance(x, bool)
+
+
+def value_fits(c, val):
+    """can a conforming device stream this generator output on this channel: the value fits the declared type / dimension /
+    metadata size (a value that does not fit makes the device's encoder raise — modelled, not judged)"""
+    data, meta = val
+    if any(x is NotImplemented for x in list(data) + list(meta)):
+        return False
     t = c["type"] & 0x1F
     if t not in sg.STD:
         return False
     code = sg.STD[t][0]
-    if g == 10:
-        kind, dim, rng_, nmeta = "int", c["vdim"], (0, 1000), 0
-    elif g in IDX_GENS:
-        kind, dim, rng_, nmeta = "int", c["vdim"], (0, IDX_MAX), 0       # call indices: wide types only
+    if not data and not meta:
+        return False                         # a sample with neither data nor metadata is not a sample
+    if code == "":
+        ok = c["vdim"] == 0 and len(data) == 0
+    elif code == "s":
+        ok = c["vdim"] >= 1 and len(data) == 1 and isinstance(data[0], str)
     else:
-        kind, dim, rng_, nmeta = GEN_SHAPE[g]
-    if kind == "none":
-        ok = code == "" and c["vdim"] == 0
-    elif kind == "str":
-        ok = code == "s" and c["vdim"] >= 1
-    else:
-        if code in ("", "s") or c["vdim"] != dim:
+        if len(data) != c["vdim"] or not all(is_num(x) for x in data):
             return False
         if code in "fd":
             ok = True
         elif t in FRAC:
             lo, hi = INT_RANGE[code]
-            ok = lo <= rng_[0] * (1 << FRAC[t]) and rng_[1] * (1 << FRAC[t]) <= hi
+            ok = all(lo <= x * (1 << FRAC[t]) <= hi for x in data)
         else:
             lo, hi = INT_RANGE[code]
-            ok = kind == "int" and lo <= rng_[0] and rng_[1] <= hi
+            ok = all(isinstance(x, int) and lo <= x <= hi for x in data)
     ml = c["mlen"]
     if ml != 0:
-        ok = ok and (nmeta == 1 if ml in (1, 2, 4, 8) else nmeta == ml) and (g != 7 or ml >= 1)
+        ok = ok and (len(meta) == 1 if ml in (1, 2, 4, 8) else len(meta) == ml)
+        ok = ok and all(isinstance(x, int) and not isinstance(x, bool) for x in meta)
+        ok = ok and all(0 <= x < (1 << (8 * ml) if ml in (1, 2, 4, 8) else 256) for x in meta)
     return ok
 
 
-def det_next(gen, state, vdim=1, calls=0):
-    """next output of deterministic generator `gen` from `state`: (kind, data, meta) or None (function returned None);
-    `calls` = how many times the channel was sampled since the last start (what a generator is handed as `cntr`)"""
+def harness_next(gen, state, vdim, calls):
+    """next output of a generator the HARNESS defines (kinds 10, 11, 12: `vec_func` / `idx_func` above): (data, meta) or None;
+    `calls` = how many times the channel was sampled since the last start (what the function is handed as `cntr`)"""
     if gen == 11:
-        return ("num", [calls] * vdim, [])
+        return [calls] * vdim, []
     if gen == 12:
-        return ("num", [calls] * vdim, []) if calls % 3 == 0 else None
-    if gen == 1:
-        state["c"] = state.get("c", 0) + 1
-        if state["c"] > 1000:
-            state["c"] = 0
-        return ("num", [state["c"]], [])
-    if gen == 2:
-        s = state.setdefault("s", 1)
-        state["c"] = state.get("c", 0) + s
-        if state["c"] > 1000 or state["c"] < -1000:
-            state["s"] = -s
-        return ("num", [state["c"]], [])
-    if gen == 5:
-        return ("num", [1, 0, -1], [])
-    if gen == 6:
-        c = state.get("c", 0)
-        state["c"] = c + 1
-        return ("str", b"hello", []) if c % 10000 == 0 else None
-    if gen == 7:
-        state["c"] = (state.get("c", 0) + 1) % 255
-        return ("num", [1, 0, -1], [state["c"]])
-    if gen == 8:
-        return ("num", [], list(b"hello" + bytes(11)))
-    if gen == 9:
-        import math
-        c = state.get("c", 0)
-        x = 2 * math.pi * c / 500
-        state["c"] = (c + 1) % 500
-        return ("num", [math.sin(x), math.sin(x + (2 * math.pi / 3)), math.sin(x + (4 * math.pi / 3))], [])
+        return ([calls] * vdim, []) if calls % 3 == 0 else None
     if gen == 10:
         state["c"] = state.get("c", 0) + 1
         if state["c"] > 1000:
             state["c"] = 0
-        return ("num", [state["c"]] * vdim, [])
+        return [state["c"]] * vdim, []
     raise ValueError(gen)
 
 
 def expect_sample_bytes(c, val):
-    """wire bytes (data, meta) of one sample of channel definition c carrying generator value val (reference encoder)"""
-    kind, data, meta = val
+    """wire bytes (data, meta) of one sample of channel definition c carrying generator value val (reference encoder);
+    data = None when the value has no exact wire form (a fixed-point value between two steps): structure only"""
+    data, meta = val
     t = c["type"] & 0x1F
     code = sg.STD[t][0]
-    if kind == "str":
-        db = (data + bytes(c["vdim"]))[:c["vdim"]]
+    if code == "s":
+        db = (data[0].encode("utf-8") + bytes(c["vdim"]))[:c["vdim"]]
     else:
         db = b""
         for x in data:
@@ -772,7 +1027,11 @@ def expect_sample_bytes(c, val):
             elif code == "d":
                 db += struct.pack("<d", float(x))
             else:
-                db += struct.pack("<" + code, x * (1 << FRAC.get(t, 0)))
+                v = x * (1 << FRAC.get(t, 0))
+                if v != int(v):
+                    db = None
+                    break
+                db += struct.pack("<" + code, int(v))
     ml = c["mlen"]
     if ml == 0:
         mb = b""
@@ -784,29 +1043,64 @@ def expect_sample_bytes(c, val):
 
 
 class Judge:
-    """one conforming device per instance (harness/refdev.py RefDevice for requests, the generator definitions for the
-    stream), fed with the same ops; every observation of the transcript is compared with it"""
+    """one conforming device per instance (harness/refdev.py RefDevice for requests; for the stream: each channel's samples
+    are the outputs of a FRESH generator object of its class since the last start, in order, none lost or repeated), fed
+    with the same ops; every observation of the transcript is compared with it.
 
-    def __init__(self, defs):
+    The device's DEFINITION is not copied from dummy.py: for a default device it is what `snapshot` read from the
+    constructed device object before its history started (`info["snap"]`); for a custom device it is the definition the
+    harness gave to the constructor.  The generator CLASS of a channel comes from the object as well; what a fresh object
+    of that class yields is asked of a fresh interpreter (`Fresh`), so neither the default table nor the generators'
+    constants are known here.  Nothing of the device's protocol code (encoders, callbacks, queues) is used."""
+
+    def __init__(self, defs, info, ops=()):
         self.codec = refdev.SerialCodec()
         self.insts = []
-        for d in defs:
+        snaps = info.get("snap") or [None] * len(defs)
+        nsteps = {}                          # batches an instance can build at most (stream steps and stops)
+        for o in ops:
+            if o[1] in "Sz":
+                nsteps[int(o[0])] = nsteps.get(int(o[0]), 0) + 1
+        for k, d in enumerate(defs):
+            snap = snaps[k]
+            if snap is None:                 # never constructed in this run (a late instance whose `n` op was not run)
+                self.insts.append(None)
+                continue
             if d["kind"] == "A":
                 base = self.insts[d["alias"]]
                 rd = refdev.RefDevice([], flags=d["flags"], rxpadding=d["rxp"])
                 rd.chans = base["ref"].chans          # the same channel objects
-                gst = base["gst"]
+                gst, chans = base["gst"], base["chans"]
             else:
+                if d["kind"] == "D":
+                    # the definition of the device that was constructed (channel count, types, names, generator classes)
+                    chans = [dict(type=c["type"], vdim=c["vdim"], mlen=c["mlen"], name=c["name"], en=c["en"], div=c["div"],
+                                  src=None if c["func"] is None else ("class", c["func"][0], c["func"][1])) for c in snap["chans"]]
+                else:
+                    chans = []
+                    for c, sc in zip(d["chans"], snap["chans"]):
+                        g = c["gen"]
+                        src = None if g is None else (("harness", g) if g in HARNESS_GENS else ("class", sc["func"][0], sc["func"][1]))
+                        chans.append(dict(type=c["type"], vdim=c["vdim"], mlen=c["mlen"], name=c["name"].decode("utf-8"),
+                                          en=bool(c["en"]), div=c["div"], src=src))
                 rd = refdev.RefDevice([dict(en=bool(c["en"]), type=c["type"], vdim=c["vdim"], div=c["div"], mlen=c["mlen"],
-                                            name=c["name"].decode("utf-8")) for c in d["chans"]], flags=d["flags"], rxpadding=d["rxp"])
-                gst = [dict() for _ in d["chans"]]
-            self.insts.append(dict(ref=rd, d=d, qw=[], expect=[], running=False, gst=gst, tainted=False, stream_dead=False,
-                                   recv_dead=False))
+                                            name=c["name"]) for c in chans], flags=d["flags"], rxpadding=d["rxp"])
+                gst = [dict() for _ in chans]
+            self.insts.append(dict(ref=rd, d=d, chans=chans, qw=[], expect=[], running=False, gst=gst, tainted=False,
+                                   stream_dead=False, recv_dead=False, hint=(nsteps.get(k, 0) + 1) * d["snum"]))
+        Fresh.need(sorted({(c["src"][1], c["src"][2]) for I in self.insts if I for c in I["chans"]
+                           if c["src"] and c["src"][0] == "class"}))
+
+    def deterministic(self, c):
+        """is the channel's sample sequence a function of the number of calls since the last start"""
+        if c["src"] is None or c["src"][0] == "harness":
+            return True
+        return Fresh.output(c["src"][1:], 0)[1]
 
     # -- requests ------------------------------------------------------------------------------------------
     def classify(self, I, data):
         """None: a conforming device ignores the write; 'taint': a frame outside the protocol; else (fid, payload)"""
-        n = len(I["d"]["chans"])
+        n = len(I["chans"])
         i = self.codec.find(data)
         fr = self.codec.decode_at(data, i) if i >= 0 else None
         if fr is None:
@@ -838,18 +1132,18 @@ class Judge:
         """the stream thread builds one batch: which channels, how many rounds"""
         rd, d = I["ref"], I["d"]
         en = [i for i, c in enumerate(rd.chans) if c["en"]]
-        if any(not combo_ok(d["chans"][i]) for i in en):
-            I["tainted"] = True
-            return
         snap = dict(en=en, snum=d["snum"])
         exp = self.batch_samples(I, snap)          # generator outputs are taken when the batch is built
+        if exp is None:
+            I["tainted"] = True                    # a value that does not fit its channel: the encoder raises (not judged)
+            return
         I["last_bytes"] = self.batch_bytes(I, exp)
         if exp and I["last_bytes"] <= 65529:
             I["expect"].append(("stream", snap, exp))
 
     def batch_bytes(self, I, exp):
         """payload size of the batch: flags byte + (channel id + data + metadata) of every sample actually produced"""
-        chans = I["d"]["chans"]
+        chans = I["chans"]
         tot = 1
         for c, _ in exp:
             a, b = sample_size(chans[c])
@@ -857,27 +1151,36 @@ class Judge:
         return tot
 
     def batch_samples(self, I, snap):
-        """expected samples [(chan, value or None=unmodelled)] of a batch; advances the generator states"""
-        chans = I["d"]["chans"]
+        """expected samples [(chan, value or None = structure only)] of a batch; advances the call counts.  A channel with a
+        function is sampled once per round while enabled; sample number j since the last start carries output j of a fresh
+        generator object of the channel's class (no sample where that output is None).  None: a value does not fit."""
+        chans = I["chans"]
         gst = I["gst"]
         exp = []
         for _ in range(snap["snum"]):
             for c in snap["en"]:
-                g = chans[c]["gen"]
-                if g is None:
+                src = chans[c]["src"]
+                if src is None:
                     continue
                 calls = gst[c].get("n", 0)        # every sampling of the channel counts, whether or not it yields a sample
                 gst[c]["n"] = calls + 1
-                if g in DET_GENS or (g == 9 and ORACLE_MODE[0]):
-                    v = det_next(g, gst[c], chans[c]["vdim"], calls)
-                    if v is not None:
-                        exp.append((c, v))
+                if src[0] == "harness":
+                    v, det = harness_next(src[1], gst[c], chans[c]["vdim"], calls), True
                 else:
-                    exp.append((c, None))
+                    v, det = Fresh.output(src[1:], calls, I["hint"])
+                    if v == "unknown":
+                        return None               # a generator class that cannot be re-created: not judged
+                if v is None:
+                    continue
+                if not value_fits(chans[c], v):
+                    return None
+                if not det and sg.STD[chans[c]["type"] & 0x1F][0] not in "fd":
+                    return None                   # unpredictable values on an integer / fixed-point channel: not judged
+                exp.append((c, v if det else None))
         return exp
 
     def check_stream(self, I, snap, exp, payload):
-        chans = I["d"]["chans"]
+        chans = I["chans"]
         ss = split_stream(payload, chans)
         if ss is None:
             return {"key": "stream-malformed", "what": "stream frame does not parse against the device's own channel table",
@@ -895,9 +1198,11 @@ class Judge:
             if v is None:
                 continue
             edb, emb = expect_sample_bytes(chans[c], v)
+            if edb is None:
+                edb = db
             if db != edb or mb != emb:
-                return {"key": "generator-order", "what": f"channel {c}: sample is not the next value of its generator since the last start "
-                        "(loss, repetition or missing reset)", "expected": f"{edb.hex()} meta {emb.hex()}", "observed": f"{db.hex()} meta {mb.hex()}"}
+                return {"key": "generator-order", "what": f"channel {c}: sample is not the next value a fresh generator of its class yields "
+                        "since the last start (loss, repetition or missing reset)", "expected": f"{edb.hex()} meta {emb.hex()}", "observed": f"{db.hex()} meta {mb.hex()}"}
         return None
 
     # -- ops -----------------------------------------------------------------------------------------------------
@@ -915,10 +1220,16 @@ class Judge:
     def op(self, idx, op, tok, info):
         k, code, arg = int(op[0]), op[1], op[2:]
         I = self.insts[k]
+        if code == "n" or I is None:
+            return None                        # construction: the instance's definition was read when it was constructed
         rd = I["ref"]
         where = f"op {idx} `{op[:40]}`"
         if code == "w":
-            I["qw"].append(b"" if arg == "-" else bytes.fromhex(arg))
+            data = b"" if arg == "-" else bytes.fromhex(arg)
+            wp = I["d"].get("wpad", I["d"]["rxp"])
+            if wp and len(data) % wp:
+                data += bytes(wp - len(data) % wp)     # the interface pads every write to a multiple of its write padding
+            I["qw"].append(data)
         elif code == "a":
             I["running"] = True
             for g in I["gst"]:
@@ -998,7 +1309,7 @@ def judge(defs, ops, out, info):
     """C14 on a transcript.  Returns None or a violation dict."""
     if len(out) != len(ops):
         return {"key": "harness", "what": "transcript length", "expected": len(ops), "observed": len(out)}
-    J = Judge(defs)
+    J = Judge(defs, info, ops)
     for idx, (op, tok) in enumerate(zip(ops, out)):
         r = J.op(idx, op, tok, info)
         if r:
@@ -1035,8 +1346,10 @@ class C14(Prop):
     rule = ("random histories (write / receive-thread step / stream-thread step / read / start / stop, 5..70 ops) on the real "
             "DummyDev under the virtual-time runtime in pre-emptive mode with an op-directed chooser; device definitions: default "
             "channel set and custom lists of 1..255 channels over 50 type/dimension/metadata/generator combinations (dummy.py's ten "
-            "functions, user-defined vector function, user-defined functions of the call index: dense and sparse), flags with and "
-            "without ACK / divider support, rx padding 0..255, batch sizes 1..99 (and 100, 300..10001 in the wrap-around "
+            "functions, user-defined vector function, user-defined functions of the call index: dense and sparse), channel names "
+            "with leading / trailing / inner white space, tabs, multi-byte characters (list of 25 + random), channel ids that are "
+            "not the positions, flags with and without ACK / divider support, rx padding 0..255, write padding equal to or "
+            "different from it, stream_sleep 0 / 1 ms / 0.5 s / 3 s, batch sizes 1..99 (and 100, 300..10001 in the wrap-around "
             "histories that cross the periods 1000 / +-1000 / 10000 / 255 / 500 of every default generator); requests in single / "
             "all / bulk form built by the independent encoder with any channel byte in all / bulk form and any non-zero value "
             "byte for 'enabled', padding-only writes, noise, truncated, start-byte-free requests, requests with bit flips in the "
@@ -1045,10 +1358,16 @@ class C14(Prop):
             "generator values masked, thread deaths, state dumps with call counters) is compared with the model; distinct = "
             "distinct line; non-trivial = history with at least one answered request or stream frame")
     assumptions = ["virtual-time runtime (harness/vsim.py) preserves queue / lock / event / thread semantics",
-                   "thread iterations are atomic (method granularity): the race between stop() and a batch being built is outside the model",
-                   "reference device (harness/refdev.py) is a conforming NxScope device",
-                   "values of the random generators (ChannelFunc0,3,4) are compared by structure only (they draw from the process-global "
-                   "`random`); the sine generator (ChannelFunc9) by value in oracle runs only",
+                   "thread iterations are atomic (method granularity): schedules are outside the property's quantifier — with real threads "
+                   "a batch can be sampled and queued after a stop request was acknowledged (`_thread_stream` waits on the event, then "
+                   "takes the lock; `_start_cb` clears the event outside the lock), and stop() races with a batch being built",
+                   "reference device (harness/refdev.py) is a conforming NxScope device; the oracle takes the device's definition from the "
+                   "constructed device object (default devices) / from what the harness passed (custom devices) and a channel's expected "
+                   "sample sequence from a fresh object of its generator class created in a fresh interpreter",
+                   "values of generator classes that are not deterministic (two fresh objects differ under different `random` seeds: "
+                   "ChannelFunc0,3,4) are compared by structure only; the sine generator (ChannelFunc9) by value in oracle runs only",
+                   "channel names are valid NUL-free UTF-8 (a `str` name with a lone surrogate makes the channel-info encoder raise in "
+                   "the receive thread: not expressible in the model's byte-list names)",
                    "stream theorems hold under BatchFits (known finding F17 at the excluded point)",
                    "a CRC-valid frame that is not a request (ACK / STREAM id, common-info request with a payload) ends DummyDev's receive "
                    "thread (AssertionError): outside the property's quantifier (padding, noise, CRC-damaged requests); modelled, not judged",
@@ -1078,6 +1397,8 @@ class C14(Prop):
         yield "dummy run D,3,16,100 " + ";".join(ops), "default-snum100"
         yield f17_line(), "oversize-batch"
         yield f19_line(), "call-index"
+        yield names_line(), "names"
+        yield late_default_line(), "late-default"
         for line, tag in sparse_lines() + wrap_lines():
             yield line, tag
 
@@ -1091,7 +1412,7 @@ class C14(Prop):
         return oracle_line(line)
 
     def targeted(self):
-        return [(f19_line(), "call-index")] + sparse_lines() + wrap_lines()
+        return [(f19_line(), "call-index"), (names_line(), "names"), (late_default_line(), "late-default")] + sparse_lines() + wrap_lines()
 
     def search_cases(self, rng):
         out = list(self.targeted())
